@@ -1,9 +1,11 @@
 import SqlfluffVerif.Driver.Proto
 import SqlfluffVerif.Driver.Pos
 import SqlfluffVerif.Driver.Patch
+import SqlfluffVerif.Driver.Dedupe
+import SqlfluffVerif.Driver.Noqa
 open SqlfluffVerif SqlfluffVerif.Proto SqlfluffVerif.Driver
 
-def handlers : List (List String → Option String) := [handlePos, handlePatch]
+def handlers : List (List String → Option String) := [handlePos, handlePatch, handleDedupe, handleNoqa]
 
 def handle (toks : List String) : String :=
   match toks with
@@ -16,7 +18,7 @@ def handle (toks : List String) : String :=
 partial def loop (h : IO.FS.Stream) (out : IO.FS.Stream) : IO Unit := do
   let line ← h.getLine
   if line.isEmpty then return ()
-  let l := (line.dropRightWhile (fun c => c = '\n' || c = '\r'))
+  let l := (line.trimAsciiEnd.toString)
   out.putStrLn (handle (l.splitOn " "))
   loop h out
 
